@@ -337,6 +337,11 @@ func fragOverride(c *compCtx, k int, nested bool) fragInst {
 		fmt.Fprintf(&g, "var<private> gi%d: f32 = ovf%d * 10.0;\n", k, k)
 		fmt.Fprintf(&b, "acc += gi%d;\n", k)
 	}
+	if c.r.chance(0.5) {
+		// a module-scope variable initialised by a BARE override of its own type
+		fmt.Fprintf(&g, "var<private> gb%d: f32 = ovf%d;\nvar<private> gu%d: u32 = ovu%d;\n", k, k, k, k)
+		fmt.Fprintf(&b, "acc += gb%d + f32(gu%d);\n", k, k)
+	}
 	if nested {
 		fmt.Fprintf(&b, "if (ovb%d) {\n  for (var j%d = 0u; j%d < ovu%d; j%d++) {\n    acc += ovf%d * f32(j%d);\n    if (acc > ovd%d) { break; }\n  }\n} else {\n  acc -= ovd%d;\n}\n", k, k, k, k, k, k, k, k, k)
 	} else {
